@@ -2271,7 +2271,9 @@ def _forward_generator_locals(func, resolve):
             if isinstance(st, ast.Assign) and len(st.targets) == 1 and isinstance(st.targets[0], ast.Name) and isinstance(st.value, ast.Call):
                 x, call = st.targets[0].id, st.value
                 r = resolve(call)
-                if r is not None and r[0] is not func and (_generator_callee(r[0]) or _single_yield(r[0]) is not None) \
+                # (one-yield generators only: a generator with several yields usually hands over records of several kinds that the
+                # consumer tells apart again -- reading that needs more than putting the pieces next to each other)
+                if r is not None and r[0] is not func and _single_yield(r[0]) is not None \
                         and loads.get(x, 0) == 1 and stores.get(x, 0) == 1 \
                         and all(_pure(a) for a in call.args) and all(k.arg is not None and _pure(k.value) for k in call.keywords):
                     argnames = set().union(set(), *[_loaded(a) for a in call.args], *[_loaded(k.value) for k in call.keywords])
@@ -2726,7 +2728,18 @@ def join_term_lists(func):
             continue
         b = func.body[bi]
         cell = ast.Constant(value="".join(e.value for e in b.value.elt.elts))
-        b.value = ast.BinOp(left=ast.List(elts=[cell], ctx=ast.Load()), op=ast.Mult(), right=b.value.generators[0].iter.args[0])
+        # (`[c] * (a * b)` is spelled `[c] * a * b`, the form the size rules know)
+        factors, todo = [], [b.value.generators[0].iter.args[0]]
+        while todo:
+            e = todo.pop()
+            if isinstance(e, ast.BinOp) and isinstance(e.op, ast.Mult):
+                todo += [e.right, e.left]
+            else:
+                factors.append(e)
+        val = ast.List(elts=[cell], ctx=ast.Load())
+        for e in factors:
+            val = ast.BinOp(left=val, op=ast.Mult(), right=e)
+        b.value = val
         ast.fix_missing_locations(ast.copy_location(b.value, b))
         ids = {id(n) for n in appends}
 
